@@ -21,7 +21,7 @@ pub struct Case {
 }
 
 pub fn echo_wreq() -> impl Strategy<Value = WReq> {
-    (gen_req::wreq(), 0u8..7, "[a-zA-Z0-9._~-]{1,6}", "[a-zA-Z0-9%._~-]{1,6}", prop::option::weighted(0.25, "[a-z0-9]{1,8}"), prop::option::weighted(0.2, prop_oneof![3 => Just("close"), 2 => Just("Close"), 2 => Just("keep-alive"), 1 => Just("Keep-Alive"), 1 => Just("TE"), 1 => Just("keep-alive, TE"), 1 => Just("Upgrade, HTTP2-Settings"), 1 => Just("upgrade")]), vec(gen_req::header_line(), 0..5), prop::option::weighted(0.08, (0u8..3, any::<prop::sample::Index>()))).prop_map(
+    (gen_req::wreq(), 0u8..7, "[a-zA-Z0-9._~-]{1,6}", "[a-zA-Z0-9%._~-]{1,6}", prop::option::weighted(0.25, "[a-z0-9]{1,8}"), prop::option::weighted(0.2, prop_oneof![3 => Just("close"), 2 => Just("Close"), 2 => Just("keep-alive"), 1 => Just("Keep-Alive"), 1 => Just("TE"), 1 => Just("keep-alive, TE"), 1 => Just("Upgrade, HTTP2-Settings"), 1 => Just("upgrade")]), vec(gen_req::header_line(), 0..5), prop::option::weighted(0.08, (0u8..4, any::<prop::sample::Index>()))).prop_map(
         |(mut w, kind, a, b, ctx, conn, fewer_headers, poison)| {
             let query = w.target.split_once('?').map(|(_, q)| q.to_string());
             let b = if crate::oracle::http::pct_decode_strict(b.as_bytes()).ok().and_then(|x| String::from_utf8(x).ok()).is_some() { b } else { "b".to_string() };
@@ -44,13 +44,18 @@ pub fn echo_wreq() -> impl Strategy<Value = WReq> {
                 // a request the parser refuses (400) after it has stored the header lines before the broken one;
                 // no body, so that nothing of it stays in the stream
                 w.body = None;
-                let line = match kind {
-                    0 => ("X-Bro\rken".to_string(), "v".to_string()),
-                    1 => ("Content-Length".to_string(), "1x".to_string()),
-                    _ => ("No colon here\r\nX-After".to_string(), "v".to_string()),
-                };
-                let i = at.index(w.headers.len() + 1);
-                w.headers.insert(i, line);
+                if kind == 3 {
+                    // another protocol version (505): the request line ends inside what `to_bytes` writes as the target
+                    w.target = format!("{} HTTP/1.0\r\nX-Rest-Of-Line:", w.target.split('?').next().unwrap());
+                } else {
+                    let line = match kind {
+                        0 => ("X-Bro\rken".to_string(), "v".to_string()),
+                        1 => ("Content-Length".to_string(), "1x".to_string()),
+                        _ => ("No colon here\r\nX-After".to_string(), "v".to_string()),
+                    };
+                    let i = at.index(w.headers.len() + 1);
+                    w.headers.insert(i, line);
+                }
             }
             w
         },
@@ -81,11 +86,11 @@ pub fn wreq_in_domain(w: &WReq) -> bool {
     matches!(crate::oracle::http::parse_request(&b), Ok(r) if r.consumed == b.len() && r.head_len <= 900) && wants_close(w).is_some()
 }
 
-/// One of the three refused shapes `echo_wreq` builds: a CR inside a header name, a header line without a colon, a
-/// Content-Length that is not a number. No body, head below the buffer size; the strict reference parser rejects it too.
+/// One of the four refused shapes `echo_wreq` builds: a CR inside a header name, a header line without a colon, a
+/// Content-Length that is not a number, another protocol version. No body, head below the buffer size; the strict reference parser rejects it too.
 pub fn is_poison(w: &WReq) -> bool {
     let b = w.to_bytes();
-    let broken = w.headers.iter().any(|(n, v)| n.contains('\r') || (n.eq_ignore_ascii_case("Content-Length") && v.parse::<u64>().is_err()));
+    let broken = w.headers.iter().any(|(n, v)| n.contains('\r') || (n.eq_ignore_ascii_case("Content-Length") && v.parse::<u64>().is_err())) || w.target.contains(" HTTP/1.0\r\n");
     broken && w.body.is_none() && b.len() <= 900 && crate::oracle::http::parse_request(&b).is_err()
 }
 
@@ -112,7 +117,7 @@ impl Property for C05 {
     const ASSUMPTIONS: &'static [&'static str] = &[
         "request heads stay below the 1 KiB buffer (the quantifier varies body sizes)",
         "Connection values: close, Close, keep-alive, Keep-Alive, TE, `keep-alive, TE`, `Upgrade, HTTP2-Settings`, upgrade; lists naming close and other spellings of close (CLOSE) are not generated (the code compares with close/Close only, RFC 9110 compares case-insensitively: either reading would be defensible)",
-        "8% of the requests are refused ones (CR in a header name, a header line without a colon, a non-numeric Content-Length; no body): the expected answer is the 400 the same bytes get alone, and the connection goes on",
+        "8% of the requests are refused ones (CR in a header name, a header line without a colon, a non-numeric Content-Length, `HTTP/1.0`; no body): the expected answer is the 400 the same bytes get alone, and the connection goes on",
         "the socketpair poses as a TcpStream; the kernel's TCP stack is not exercised",
     ];
 
@@ -122,7 +127,7 @@ impl Property for C05 {
         C05 { router: echo::echo_router() }
     }
     fn n_cases(&self, tier: Tier) -> u64 {
-        tier.pick(30_000, 600_000)
+        tier.pick(100_000, 600_000)
     }
     fn chunk(&self, _tier: Tier) -> u64 {
         2000
